@@ -16,7 +16,7 @@ def digit(rng, v, ascii_only=False):
 def int_spelling(rng, z=None, valid=True):
     """A spelling int() accepts for z (if valid) or a near miss."""
     if z is None:
-        z = rng.choice([0, 1, 2, 3, 4, 5, 7, 9, 10, 22, 47, 100, 254, 255, 256, 65535, 2 ** 31, 2 ** 70,
+        z = rng.choice([0, 1, 2, 3, 4, 5, 7, 9, 10, 22, 47, 100, 254, 255, 256, 65535, 2 ** 31, 2 ** 70, 2 ** 53 + 1, 10 ** 17 + 3,
                         rng.randrange(0, 300), rng.randrange(0, 10 ** 12)])
         if rng.random() < 0.2:
             z = -z
